@@ -12,7 +12,8 @@ environment of the derive site (`closed_env_independent`).
 (ii) *Binder hygiene.* The `format_ident!` prefixes used for pattern bindings inside one handler
 never make two different (prefix, field) pairs collide (`binder_formats_no_clash` over the
 regenerated table + `noClash_sound`), and the hasher type parameter is chosen away from the type's
-own generic names (`hasherName_fresh`).
+own generic names (`hasherName_fresh`), the Debug wrapper struct away from them and from the type's own name
+(`debugFieldName_fresh`); both are the first free candidate (`pickName_first`).
 -/
 namespace Educe.Props.C19
 open Educe.Names
@@ -194,72 +195,102 @@ theorem binder_formats_no_clash : formatsOK Generated.binderFormats = true := by
 example : noClash 1 [95] [95, 95] = false := by decide
 example : noClash 0 [95] [95, 95] = true := by decide
 
-/-- The hasher type parameter: `H`, `H_`, `H__`, … — the first that is not a generic parameter of the type. -/
-def hasherCandidate (k : Nat) : List Char := 'H' :: List.replicate k '_'
+/-! ### names the generated code picks for itself
 
-def hasherName (generics : List (List Char)) : Nat → Nat → List Char
-  | 0, k => hasherCandidate k
-  | fuel + 1, k => if generics.contains (hasherCandidate k) then hasherName generics fuel (k + 1) else hasherCandidate k
+Two handlers need a name of their own next to the user's generic parameters: the `Hasher` type parameter of `fn hash`
+(`H`, `H_`, `H__`, …: `hash/mod.rs::hasher_ident`) and the wrapper struct of a custom Debug method (`Educe__DebugField`,
+`Educe__DebugField_`, …: `debug/common.rs::debug_field_ident`, which must also avoid the type's own name). Both are
+the same loop: try the candidate, append `_` while it is taken, at most one step per name that may be taken. -/
 
-theorem hasherCandidate_inj {j k : Nat} (h : hasherCandidate j = hasherCandidate k) : j = k := by
-  unfold hasherCandidate at h
+theorem candidate_inj {base : List Char} {j k : Nat} (h : candidate base j = candidate base k) : j = k := by
+  unfold candidate at h
   have := congrArg List.length h
   simpa using this
 
-theorem hasherName_is_candidate (generics : List (List Char)) (fuel k : Nat) :
-    ∃ j, k ≤ j ∧ hasherName generics fuel k = hasherCandidate j := by
+theorem pickName_is_candidate (base : List Char) (taken : List (List Char)) (fuel k : Nat) :
+    ∃ j, k ≤ j ∧ j ≤ k + fuel ∧ pickName base taken fuel k = candidate base j := by
   induction fuel generalizing k with
-  | zero => exact ⟨k, Nat.le_refl _, rfl⟩
+  | zero => exact ⟨k, Nat.le_refl _, by omega, rfl⟩
   | succ fuel ih =>
-    simp only [hasherName]
+    simp only [pickName]
     split
-    · obtain ⟨j, hj, he⟩ := ih (k + 1)
-      exact ⟨j, by omega, he⟩
-    · exact ⟨k, Nat.le_refl _, rfl⟩
+    · obtain ⟨j, hj, hj2, he⟩ := ih (k + 1)
+      exact ⟨j, by omega, by omega, he⟩
+    · exact ⟨k, Nat.le_refl _, by omega, rfl⟩
 
 /-- Later candidates are looked up only: removing an earlier one does not change the search. -/
-theorem hasherName_erase (generics : List (List Char)) (fuel k i : Nat) (hi : i < k) :
-    hasherName (generics.erase (hasherCandidate i)) fuel k = hasherName generics fuel k := by
+theorem pickName_erase (base : List Char) (taken : List (List Char)) (fuel k i : Nat) (hi : i < k) :
+    pickName base (taken.erase (candidate base i)) fuel k = pickName base taken fuel k := by
   induction fuel generalizing k with
   | zero => rfl
   | succ fuel ih =>
-    simp only [hasherName]
-    have hne : hasherCandidate k ≠ hasherCandidate i := by
-      intro h; have := hasherCandidate_inj h; omega
-    have hc : (generics.erase (hasherCandidate i)).contains (hasherCandidate k) = generics.contains (hasherCandidate k) := by
+    simp only [pickName]
+    have hne : candidate base k ≠ candidate base i := by
+      intro h; have := candidate_inj h; omega
+    have hc : (taken.erase (candidate base i)).contains (candidate base k) = taken.contains (candidate base k) := by
       rw [Bool.eq_iff_iff]
       simp only [List.contains_iff_mem]
       exact List.mem_erase_of_ne hne
     rw [hc, ih (k + 1) (by omega)]
 
-/-- With as much fuel as the type has generic parameters the chosen name is fresh
-    (the real loop is unbounded; it stops at the latest after that many steps). -/
-theorem hasherName_fresh (generics : List (List Char)) (fuel k : Nat) (h : generics.length ≤ fuel) :
-    hasherName generics fuel k ∉ generics := by
-  induction fuel generalizing generics k with
+/-- **With one step per name that may be taken the chosen name is free.** -/
+theorem pickName_fresh (base : List Char) (taken : List (List Char)) (fuel k : Nat) (h : taken.length ≤ fuel) :
+    pickName base taken fuel k ∉ taken := by
+  induction fuel generalizing taken k with
   | zero =>
-    have : generics = [] := List.eq_nil_of_length_eq_zero (by omega)
+    have : taken = [] := List.eq_nil_of_length_eq_zero (by omega)
     subst this
     simp
   | succ fuel ih =>
-    simp only [hasherName]
+    simp only [pickName]
     split
     · rename_i hc
-      have hmem : hasherCandidate k ∈ generics := by simpa using hc
-      have hlen : (generics.erase (hasherCandidate k)).length ≤ fuel := by
+      have hmem : candidate base k ∈ taken := by simpa using hc
+      have hlen : (taken.erase (candidate base k)).length ≤ fuel := by
         rw [List.length_erase_of_mem hmem]; omega
-      have := ih (generics.erase (hasherCandidate k)) (k + 1) hlen
-      rw [hasherName_erase generics fuel (k + 1) k (by omega)] at this
+      have := ih (taken.erase (candidate base k)) (k + 1) hlen
+      rw [pickName_erase base taken fuel (k + 1) k (by omega)] at this
       intro hin
-      obtain ⟨j, hj, he⟩ := hasherName_is_candidate generics fuel (k + 1)
-      have hne : hasherName generics fuel (k + 1) ≠ hasherCandidate k := by
-        rw [he]; intro h; have := hasherCandidate_inj h; omega
+      obtain ⟨j, hj, _, he⟩ := pickName_is_candidate base taken fuel (k + 1)
+      have hne : pickName base taken fuel (k + 1) ≠ candidate base k := by
+        rw [he]; intro h; have := candidate_inj h; omega
       exact this ((List.mem_erase_of_ne hne).mpr hin)
     · rename_i hc
       simpa using hc
 
-/-- Non-vacuity and the repaired input: a type parameter called `H`. -/
-example : hasherName [['H']] 1 0 = ['H', '_'] := by decide
-example : hasherName [['T']] 1 0 = ['H'] := by decide
+/-- The chosen name is the *first* free candidate: every earlier one is taken (so the name is `H` / `Educe__DebugField`
+    itself whenever that is free - nothing changes for types that do not use these names). -/
+theorem pickName_first (base : List Char) (taken : List (List Char)) (fuel k j : Nat)
+    (h : pickName base taken fuel k = candidate base j) (i : Nat) (hk : k ≤ i) (hi : i < j) :
+    candidate base i ∈ taken := by
+  induction fuel generalizing k with
+  | zero =>
+    simp only [pickName] at h
+    have := candidate_inj h; omega
+  | succ fuel ih =>
+    simp only [pickName] at h
+    split at h
+    · rename_i hc
+      by_cases hik : i = k
+      · subst hik; simpa using hc
+      · exact ih (k + 1) h (by omega)
+    · have := candidate_inj h; omega
+
+theorem hasherName_fresh (generics : List (List Char)) : hasherName generics ∉ generics :=
+  pickName_fresh _ _ _ _ (Nat.le_refl _)
+
+theorem debugFieldName_fresh (ident : List Char) (generics : List (List Char)) :
+    debugFieldName ident generics ≠ ident ∧ debugFieldName ident generics ∉ generics := by
+  have h := pickName_fresh debugFieldBase (ident :: generics) (generics.length + 1) 0 (by simp)
+  simp only [List.mem_cons, not_or] at h
+  exact h
+
+/-- Non-vacuity and the repaired inputs: a type parameter called `H`; a type called `Educe__DebugField` with a
+    parameter `Educe__DebugField_`. -/
+example : hasherName [['H']] = ['H', '_'] := by decide
+example : hasherName [['T']] = ['H'] := by decide
+example : hasherName [['H', '_'], ['H']] = ['H', '_', '_'] := by decide
+example : debugFieldName ['S'] [['T']] = debugFieldBase := by decide
+example : debugFieldName debugFieldBase [debugFieldBase ++ ['_']] = debugFieldBase ++ ['_', '_'] := by decide
 
 end Educe.Props.C19
